@@ -318,6 +318,16 @@ func c14ExtraTrees() map[string]*world.Config {
 		lk.Keys = sortKeysC14(lk)
 		out["200-byte-keys/"+sf] = lk
 		out["40-keys-default-bf16/"+sf] = world.UintCfg(16, urange(1, 40), 1, f, "none")
+		if f == ref.FormatBinary {
+			// struct keys under a configured marshaler that does not write JSON for them, KeyCompare left nil: their
+			// order, their layers and so the whole tree are defined by that marshaler's bytes. Frozen vector only
+			// (the independent encoder knows JSON keys).
+			ak := world.StructCfg(4, []uint8{0, 1, 0, 0, 1, 0, 0, 0}, f, "none")
+			ak.AltKeyMarshal = true
+			ak.KS = world.KSStructAlt
+			ak.Keys = sortKeysC14(ak)
+			out[goldenOnly+"struct-keys-under-a-non-JSON-key-marshaler/"+sf] = ak
+		}
 		// the library's default marshaler (RemoteConfig.Marshal left nil) on characters that encoding/json
 		// escapes (<, >, &, U+2028): string values, string keys and struct keys (their layer and order too)
 		hv := world.IntCfg(4, []int{1, 2, 3, 4, 5}, []interface{}{"a&b<c>d\u2028e"}, "", f, "none")
@@ -358,6 +368,8 @@ func c14ExtraTrees() map[string]*world.Config {
 	}
 	return out
 }
+
+const goldenOnly = "frozen-vector-only:"
 
 func sortKeysC14(c *world.Config) []interface{} {
 	ks := append([]interface{}{}, c.Keys...)
@@ -608,6 +620,9 @@ func C14(run *report.Run) {
 		}
 	}
 	for name, cfg := range c14ExtraTrees() {
+		if strings.HasPrefix(name, goldenOnly) {
+			continue
+		}
 		evals++
 		var es []ref.Entry
 		for _, k := range cfg.Keys {
